@@ -18,7 +18,9 @@ def run(c):
     pw = {}
 
     def models():
-        c.tlc_model("KernelsModel", constants={"RA": 3 if th else 2, "CB": 3 if th else 2})
+        c.tlc_model("KernelsModel", constants={"RA": 3 if th else 2, "CB": 2}, timeout=3000)
+        if th:
+            c.tlc_model("KernelsModel", constants={"RA": 2, "CB": 3}, timeout=3000)
         m = c.tlc_model("PointwiseModel")      # transcription of the (repaired) code
         pw["model"] = bool(m["violated"])
         if pw["model"]:
